@@ -38,7 +38,7 @@ TECHNIQUE = "invariant at a hook: eq/hash/dict laws evaluated on all pairs of at
 ENGINES = ["harness", "canon", "corpus"]
 ASSUMPTIONS = ["canon_attr_strict equality is the intended value equality (bool and int payloads coincide by rule)",
                "CPython dict/set semantics"]
-JOB_TIMEOUT = {"quick": 600, "thorough": 3600}
+JOB_TIMEOUT = {"quick": 1800, "thorough": 7200}
 
 K_ZERO = "floatdata-eq-ignores-zero-sign"
 K_NAN = "floatdata-eq-ignores-nan-payload"
@@ -593,7 +593,7 @@ def finish(agg, tier):
     for k, need in (("pairs_compared", 300000 if q else 2e7), ("equal_pairs", 1000 if q else 80000),
                     ("nontrivial_pairs", 3000 if q else 200000), ("transitivity_triples", 1000 if q else 40000),
                     ("twoctx_generated_texts", 800 if q else 100000), ("twoctx_corpus_attr_pairs", 800 if q else 10000),
-                    ("group_pairs_compared", 1500 if q else 6000), ("class_groups", 40 if q else 100),
+                    ("group_pairs_compared", 1500 if q else 4000), ("class_groups", 40 if q else 80),
                     ("cse_uses_checked", 2000 if q else 100000), ("cse_ops_merged", 200 if q else 5000),
                     ("corpus_distinct_attrs_harvested", 500), ("lookups_through_equal_copy", 200 if q else 20000)):
         if c.get(k, 0) < need:
